@@ -18,7 +18,8 @@ one() {
   elif echo "$out" | grep -qE "^$prop: UNDECIDED|UNDECIDED property=all"; then own=undecided
   else own=miss; fi
   obl=$(echo "$out" | grep -A40 "VIOLATION property=$prop " | grep 'failed obligation' | head -2 | sed 's/  failed obligation //; s/#.*//' | tr '\n' ';')
-  echo "$n | own=$own | violations: $viol | undecided: $undp $und | $obl"
+  why=$(echo "$out" | grep -E "^$prop: UNDECIDED" | grep -o "no longer proved, but [^|]*" | sed 's/^no longer proved, but //' | tr ';' '\n' | sed 's/^ *//' | sort | uniq -c | sort -rn | head -2 | sed 's/^ *[0-9]* //' | cut -c1-110 | tr '\n' ';')
+  echo "$n | own=$own | violations: $viol | undecided: $undp $und | $obl | $why"
   rm -rf $B
 }
 export -f one
